@@ -268,7 +268,7 @@ def run_case(case):
     x0 = x.copy()
     tol = 1e-10 if dtype == np.complex128 else 2e-4
     kw = {}
-    at_ = (sum(case["rs"]) // 5) % 6 if "rs" in case else 0
+    at_ = (sum(case["rs"]) // 5) % 8 if "rs" in case else 0
     if oshape is not None:
         kw["oshape"] = vary_seq(oshape, at_)      # list / tuple / int64 array / NumPy ints
     if sum(case["rs"]) % 4 == 1 if "rs" in case else False:
